@@ -143,6 +143,12 @@ def build_cases(graphs, tier, rng, workdir):
               "query Q { iface { __typename ... on Selfish { __typename } } }",
               "query Q { uni { __typename ... on Selfish { __typename } } }",
               "query Q { empty { __typename ... on Selfish { __typename } } }",
+              # errors reported from below inline fragments / spreads (the path to the offending selection is walked)
+              "query Q { iface { __typename ... on Obj { inext { id } } } }",
+              "query Q { iface { __typename ... on Obj { next { unext { ... on Obj { inext { id } } } } } } }",
+              "fragment A on Obj { inext { id } }\nquery Q { iface { __typename ... on Obj { ...A } } }",
+              "query Q { uni { __typename ... on Obj2 { next { nope } } } }",
+              "query Q { uni { __typename ... on Obj2 { ... on Obj2 { ... on Nope { id } } } } }",
               "fragment S on Selfish { __typename }\nquery Q { iface { __typename ...S } }",
               "fragment I on Iface { __typename id }\nquery Q { selfish { __typename ...I } }"):
         cases.append({"class": "odd-abstract", "detail": {"query": q}, "schema_path": schema_path, "query": q + "\n"})
@@ -185,7 +191,16 @@ def build_cases(graphs, tier, rng, workdir):
     for i in range(20 if tier == "quick" else 200):
         junk = "".join(rng.choice("{}()[]!:$@#\"\\\n abcQqueryfragmenton...é\U0001F600") for _ in range(rng.randint(1, 80)))
         cases.append({"class": "garbage-query", "detail": {"text": junk}, "schema_path": schema_path, "query": junk})
-    return cases
+    # every broken / missing input once more, twice in one process
+    missing = os.path.join(workdir, "does_not_exist.graphql")
+    again = [dict(c, twice=True, **{"class": c["class"] + "-twice"}) for c in cases
+             if c["class"] in ("truncated-schema", "truncated-json-schema", "long-nonascii-error") and c.get("detail", {}).get("route") != "text"][::3]
+    again.append({"class": "missing-file-twice", "detail": {"which": "schema"}, "schema_path": missing, "query": "query Q { a }\n", "twice": True})
+    again.append({"class": "missing-file-twice", "detail": {"which": "query"}, "schema_path": schema_path, "query": "", "query_path": missing, "twice": True})
+    tq = os.path.join(workdir, "truncated_query.graphql")
+    vlib.write_if_changed(tq, good[: len(good) // 2])
+    again.append({"class": "truncated-query-twice", "detail": {}, "schema_path": schema_path, "query": "", "query_path": tq, "twice": True})
+    return cases + again
 
 
 def run_case(c):
@@ -193,6 +208,15 @@ def run_case(c):
     if c.get("query_path"):
         job = dict(job, query_path=c["query_path"])
         del job["query"]
+    if c.get("twice"):
+        # the same call twice in ONE process (a failed first call must not leave anything behind that makes
+        # the second one hang or abort)
+        plan = {"id": 0, "schedule": None, "threads": [{"id": 1, "calls": [{"call": "first", "job": job}, {"call": "second", "job": job}]}]}
+        r = vlib.gqlv_isolated("threads", plan, timeout=20)
+        if not r.get("timeout") and r.get("result"):
+            rs = (r["result"].get("results") or {}).get("t1") or []
+            r["result"] = rs[-1] if len(rs) == 2 else {"status": "incomplete", "msg": "only %d of 2 calls finished" % len(rs)}
+        return r
     return vlib.gqlv_isolated("gen", job, timeout=20)
 
 
